@@ -94,7 +94,8 @@ class FParser(Parser):
                 self.eat("=")
                 e = self.expr()
                 self.eat(";")
-                stmts.append(Node("let", name, e, ty=ty, mut=mut))
+                if not (name == "_" and e is not None and e.op == "ref" and e.args and e.args[0] is not None and e.args[0].op == "path"):   # `let _ = &x;` does nothing
+                    stmts.append(Node("let", name, e, ty=ty, mut=mut))
             elif self.at("return"):
                 self.eat()
                 e = None if self.at(";") else self.expr()
